@@ -528,7 +528,7 @@ Definition c10_go_recognise (text : str) : option nat :=
 (* ------------------------------------------------------------------ a finding class the recogniser exposes *)
 (* The Go back end escapes no keyword: a type named after one of the 25 keywords (a struct through its serde name, an enum
    or alias through its Rust name - `pub struct r#type`, `enum switch`), a reference to such a type, a generic parameter,
-   a unit-enum constant (enum name ++ variant name) or the accessor method of an algebraic variant (named after the
+   a unit-enum constant (enum name ++ variant name), the content key of an algebraic enum (the private field `type interface{}`) or the accessor method of an algebraic variant (named after the
    variant: `func (s E) default() ...`) is printed as it is: `type switch struct{`, which is not a TypeSpec.
    Decided on the IR ([parsed], types only). *)
 Fixpoint c10_go_rtype_kw (t : rtype) : bool :=
@@ -544,6 +544,8 @@ Definition c10_go_kw_class (pd : parsed) : bool :=
   existsb (fun s => c10_go_kw (renamed (sid s)) || existsb c10_go_kw (sgenerics s) || c10_go_fields_kw (sfields s)) (p_structs pd) ||
   existsb (fun e => let sh := enum_shared e in
                     c10_go_kw (original (eid sh)) ||
+                    (* the content key of an algebraic enum is printed bare as the struct's private field: `type interface{}` *)
+                    match e with EAlgebraic _ content _ => c10_go_kw content | EUnit _ => false end ||
                     existsb (fun v => match e with
                                       | EUnit _ => c10_go_kw (original (eid sh) ++ original (vid (variant_shared v)))
                                       | EAlgebraic _ _ _ => c10_go_kw (original (vid (variant_shared v)))
